@@ -240,8 +240,10 @@ def universe(tier, seed, n_quick, n_thorough, variants=True, gen=True, corpus_fi
                         add({"gen": g, "cfg": cfg})
             else:
                 G = 200 if tier == "quick" else N_GEN
+                for g in range(G):  # base: every generated design of the tier under jcl
+                    add({"gen": g, "cfg": "jcl"})
                 for g in harness.sample(rng, range(G), 60 if tier == "quick" else 600):
-                    add({"gen": g, "cfg": rng.choice(pool3)})
+                    add({"gen": g, "cfg": rng.choice(pool3[1:])})
         except ImportError:
             pass
     return cases
